@@ -99,6 +99,14 @@ fn main() { let n = 0; try { try { throw("x"); } catch e { loop { n = n + 1; } }
 fn main() { let i = 0; loop { println("s", i); i = i + 1; time.sleep(0.05); } }`},
 	{name: "sleep-long", endless: false, check: noOutput, src: `
 fn main() { try { time.sleep(30.0); } catch e { println("caught"); } println("after"); }`},
+	{name: "sleep-years", endless: true, check: noOutput, src: `
+fn main() { time.sleep(1000000000.0); println("woke"); }`},
+	{name: "sleep-hours-in-callee-loop", endless: true, check: noOutput, src: `
+fn nap() { time.sleep(86400.0); }
+fn main() { loop { nap(); } }`},
+	{name: "spawn-sleep-years", endless: true, vmOnly: true, check: noOutput, src: `
+fn w(id: int) { time.sleep(500000000.0 + 1.0); println("w woke", id); }
+fn main() { for i in 0..N { spawn w(i); } time.sleep(700000000.0); println("main woke"); }`},
 	{name: "sleep-in-nested-try-last", endless: false, check: noOutput, src: `
 fn work() { try { time.sleep(3.0); } catch inner { } }
 fn main() { try { work(); } catch e { } }`},
